@@ -1,7 +1,5 @@
 import RLV.Model.Bind
 import RLV.Model.Comp
-import RLV.Model.Conds
-import RLV.Model.CondsPinned
 import RLV.Model.Core
 import RLV.Model.Disp
 import RLV.Model.Esc
@@ -12,6 +10,7 @@ import RLV.Model.Loop
 import RLV.Model.Menu
 import RLV.Model.MenuSel
 import RLV.Model.Scan
+import RLV.Model.Parser
 import RLV.Model.Sel
 import RLV.Model.Term
 import RLV.Model.Tok
@@ -213,13 +212,32 @@ def step (line : String) : String :=
         pure (s1.line, c1.pos, s1.kill, s2.line) : Core.G _) with
     | .ok (l1, c1, k, l2) => s!"ok {showNats l1} {c1} {showNats k} {showNats l2}"
     | .error e => e.show
-  | ["conds", ds] =>
-    -- directives: i1 / i0 = $if with a true / false test, e = $else, n = $endif, a<k> = directive number k
-    let dirs : List Conds.Dir := (ds.splitOn ",").filterMap fun d =>
-      if d == "i1" then some (.ifc true) else if d == "i0" then some (.ifc false)
-      else if d == "e" then some .els else if d == "n" then some .endif
-      else if d.startsWith "a" then (d.drop 1).toNat?.map .act else none
-    showNats (Conds.runPinned ([true], []) dirs).2
+  | ["parse", flags, mode, term, app, files, bytes] =>
+    -- flags: two characters, haltOnErr and strict; files: name=bytes;name=bytes
+    let o : Inputrc.Opts := { haltOnErr := flags.startsWith "1", strict := flags.endsWith "1",
+                              mode := parseNats mode, term := parseNats term, app := parseNats app }
+    let fs : List (Inputrc.Str × List Nat) := (parseList files ";").filterMap (fun f =>
+      match f.splitOn "=" with
+      | [n, b] => some (parseNats n, parseNats b)
+      | _ => none)
+    let vars0 : List (Inputrc.Str × Inputrc.Val) :=
+      [(Inputrc.str "bell-style", .s (Inputrc.str "audible")), (Inputrc.str "completion-query-items", .i 100),
+       (Inputrc.str "blink-matching-paren", .b false)]
+    let c0 : Inputrc.Cfg := { vars := vars0, files := fs }
+    let showVal : Inputrc.Val → String
+      | .b v => s!"b:{if v then 1 else 0}" | .s v => s!"s:{showNats v}" | .i v => s!"i:{v}"
+    let showCall : Inputrc.Call → String
+      | .bind km sq a m => s!"bind,{showNats km},{showNats sq},{showNats a},{if m then 1 else 0}"
+      | .set n v => s!"set,{showNats n},{showVal v}"
+      | .do_ k v => s!"do,{showNats k},{showNats v}"
+      | .read n => s!"read,{showNats n}"
+    match Inputrc.parse Inputrc.cfgHandler o (parseNats bytes) c0 with
+    | .error e => e.show
+    | .ok (c, errs, ret) =>
+      let cs := if c.calls.isEmpty then "-" else "|".intercalate (c.calls.map showCall)
+      let es := if errs.isEmpty then "-" else ",".intercalate (errs.map Inputrc.EKind.name)
+      let rs := match ret with | none => "-" | some k => k.name
+      s!"ok {cs} errs={es} ret={rs}"
   | ["unesc", rs] => showNats (RLV.Esc.unescape (parseNats rs))
   | ["esc", mac, rs] => showNats (RLV.Esc.escape (mac == "1") (parseNats rs))
   | _ => "bad-op"
